@@ -242,6 +242,14 @@ impl SvgBuilder {
 
         out.push_str(&format);
 
+        // The image reference is user data: escape XML special characters so it stays a single attribute value
+        let image = image
+            .replace('&', "&amp;")
+            .replace('<', "&lt;")
+            .replace('>', "&gt;")
+            .replace('"', "&quot;")
+            .replace('\'', "&apos;");
+
         out.push_str(&format!(
             r#"<image x="{0:.2}" y="{1:.2}" width="{2:.2}" height="{2:.2}" href="{3}" />"#,
             placed_coord.0 + (border_size - image_size) / 2f64,
